@@ -337,13 +337,21 @@ pub fn chain_rx(data: &[u8]) -> CaseResult {
                 4 => u.int_in_range(180u16..=299)?,
                 _ => u.int_in_range(0u16..=699)?,
             };
-            calls.push(c06::CallSpec { kind, k: u.int_in_range(0u8..=3)?, err: [0u8, 0, 0, 1, 2][u.int_in_range(0usize..=4)?], explicit_false: u.arbitrary()?, pad });
+            calls.push(c06::CallSpec { kind, k: u.int_in_range(0u8..=3)?, err: [0u8, 0, 0, 1, 2][u.int_in_range(0usize..=4)?], explicit_false: u.arbitrary()?, pad, call_pad: 0, bare: u.ratio(1u8, 6u8)? });
         }
         let trailing = u.int_in_range(0u8..=2)?;
         let plan = chunk_plan(u)?;
         let k = u.int_in_range(0usize..=3)?;
         let pend = (0..k).map(|_| u.int_in_range(0u8..=2)).collect::<arbitrary::Result<Vec<u8>>>()?;
         let mut case = c06::Case { calls, trailing, cuts: vec![], pend };
+        for c in 0..case.calls.len() {
+            if u.ratio(1u8, 4u8)? {
+                case.calls[c].call_pad = u.int_in_range(0u16..=699)?;
+            }
+        }
+        if u.ratio(1u8, 3u8)? {
+            case.dial_calls(u.int_in_range(0usize..=5)?, u.int_in_range(-2i32..=2)?);
+        }
         case.cuts = vcommon::frames::resolve_cuts(&plan, &case.reply_stream_bytes());
         Ok(case)
     }
@@ -357,11 +365,12 @@ pub fn notified(data: &[u8]) -> CaseResult {
     let ops: Vec<c20::Op> = data
         .iter()
         .take(48)
-        .map(|b| match b % 14 {
+        .map(|b| match b % 16 {
+            14 | 15 => c20::Op::SetSame,
             0..=3 => c20::Op::Set,
             4 => c20::Op::SetClone,
             5 | 6 => c20::Op::Sub,
-            7..=11 => c20::Op::Poll((b / 14) % 3),
+            7..=11 => c20::Op::Poll((b / 16) % 3),
             12 => c20::Op::Clone,
             _ => c20::Op::DropOriginal,
         })
